@@ -37,6 +37,15 @@ def canon_shape(sh):
 
 def canon_ragged(x, scope=()):
     """scope: other in-scope RaggedArrays (parents / base), in a fixed order"""
+    try:
+        return _canon_ragged(x, scope)
+    except Exception:  # noqa: BLE001  hidden attributes of an unexpected form: coarser state, same verdicts
+        global FALLBACKS
+        FALLBACKS += 1
+        return ("fallback-exc", id(type(x)))
+
+
+def _canon_ragged(x, scope=()):
     global FALLBACKS
     d = _buf(x)
     sh = getattr(x, "_shape", None)
@@ -68,6 +77,6 @@ def canon_table(t):
         else:
             vv = ("scalar", type(vals).__name__, repr(vals))
         return (type(t).__name__, kv, vv, repr(t._mod), str(t._key_dtype), str(t._value_dtype), bool(t._safe_mode))
-    except AttributeError:
+    except Exception:  # noqa: BLE001
         FALLBACKS += 1
-        return ("fallback", type(t).__name__, repr(t))
+        return ("fallback", type(t).__name__)
